@@ -1,5 +1,6 @@
 """C03 — exactly the selected tests run, once each, every mode agrees."""
 import collections
+import os
 import itertools
 import re
 
@@ -50,7 +51,10 @@ FILTERS = [[], ['-t', 'q0'], ['-t', 'q1|q2 '], ['-t', '!q0'],
            # unit switches combined with --layer patterns that do / do not
            # accept the unit layer's name
            ['-f', '--layer', '!L2'], ['-f', '--layer', '.'], ['-u', '--layer', 'L1'],
-           ['-f', '--layer', 'layer']]
+           ['-f', '--layer', 'layer'],
+           # numeric boundaries of the level switches
+           ['--only-level', '0'], ['--only-level', '1'], ['--at-level', '0'], ['--at-level=-3'],
+           ['--only-level', '3', '--all']]
 RUNOPTS = [[], ['--repeat', '2'], ['--repeat', '3'],
            ['--shuffle', '--shuffle-seed', '7'],
            ['--shuffle', '--shuffle-seed', '7', '--repeat', '2']]
@@ -153,6 +157,22 @@ DISK_B = {'mod': 'vtw.sub.tests',
           'layers': [{'n': 'LB', 'b': [], 'k': 'c', 'h': list(worlds.HOOKS_SD)}],
           'tests': [{'n': 'b0', 'l': None, 's': 'pass'}, {'n': 'b1', 'l': 'LB', 's': 'pass'},
                     {'n': 'B2', 'l': 'LB', 's': 'pass'}]}
+# a module WITHOUT test_suite() (its TestCase classes are loaded by the default
+# loader) that happens to have globals called `layer` and `level`
+DISK_C_SRC = '''import unittest
+from vt import worldrt
+worldrt._open_trace()
+class _SomeLayer:
+    __name__ = 'helper'
+layer = _SomeLayer        # an ordinary global, NOT a declaration for the tests
+level = 3
+class T_c0(unittest.TestCase):
+    def test_c0(self):
+        worldrt.emit('t', 'c0', 'body')
+class T_c1(unittest.TestCase):
+    def test_c1(self):
+        worldrt.emit('t', 'c1', 'body')
+'''
 DISK_ROOTS = {
     'one': lambda r: ['--path', r],
     'twice': lambda r: ['--path', r, '--path', r],
@@ -160,13 +180,17 @@ DISK_ROOTS = {
     'pkg+subpkg': lambda r: ['--path', r, '-s', 'vtw', '-s', 'vtw.sub'],
     'subpkg+pkg': lambda r: ['--path', r, '-s', 'vtw.sub', '-s', 'vtw'],
     'pkg twice': lambda r: ['--path', r, '-s', 'vtw', '-s', 'vtw'],
+    # two features that are each fine alone
+    'pkg+coverage': lambda r: ['--path', r, '-s', 'vtw', '--coverage', os.path.join(r, 'covdir')],
+    'coverage': lambda r: ['--path', r, '--coverage', os.path.join(r, 'covdir')],
 }
 DISK_FILTERS = [[], ['-t', 'a0', '-t', 'b1'], ['-t', '(?i)A1 ', '-t', 'b0'],
                 ['-t', r'_(a)0 .*\1', '-t', r'_(b)1 .*\1'], ['-t', '!a', '-t', '!(?i)b2 '],
                 ['-m', 'sub', '-t', '0'], ['--layer', 'LA|LB', '-t', '(?i)b'],
                 # negated module patterns that match a *package* name only
                 ['-m', '!sub$'], ['-m', '!^vtw$', '-m', r'!\.sub$'], ['-m', 'vtw', '-m', r'!vtw(?!\.sub)']]
-DISK_IDS = {}
+DISK_IDS = {'c0': ('test_c0 (vtw.cmod.tests.T_c0.test_c0)', 'vtw.cmod.tests', 'zope.testrunner.layer.UnitTests'),
+            'c1': ('test_c1 (vtw.cmod.tests.T_c1.test_c1)', 'vtw.cmod.tests', 'zope.testrunner.layer.UnitTests')}
 for _sp in (DISK_A, DISK_B):
     for _t in _sp['tests']:
         DISK_IDS[_t['n']] = ('test_%s (%s.T_%s.test_%s)' % (_t['n'], _sp['mod'], _t['n'], _t['n']),
@@ -194,7 +218,6 @@ def disk_reference(flt):
 
 
 def run_disk_case(rk, fi):
-    import os
     import sys
     from vt import env
     from vt import worldrt
@@ -205,6 +228,11 @@ def run_disk_case(rk, fi):
     try:
         worldrt.write_disk(DISK_A, root)
         worldrt.write_disk(DISK_B, root)
+        os.makedirs(os.path.join(root, 'vtw', 'cmod'))
+        with open(os.path.join(root, 'vtw', 'cmod', '__init__.py'), 'w'):
+            pass
+        with open(os.path.join(root, 'vtw', 'cmod', 'tests.py'), 'w') as f:
+            f.write(DISK_C_SRC)
         argv = DISK_ROOTS[rk](root) + flt
         want = disk_reference(flt)
         added = False
